@@ -77,6 +77,7 @@ class Ctx:
         self.outs = []
         self.checks = []       # (name, verdict, info)
         self.tags = []
+        self.cleanups = []     # run by the explorer after the path
 
     # --- inputs -----------------------------------------------------------
     def _reg(self, name, kind, handle, meta=None):
